@@ -17,11 +17,33 @@ Lemma assoc_app {V} k (a b : list (str * V)) :
   assoc k (a ++ b) = match assoc k a with Some v => Some v | None => assoc k b end.
 Proof. induction a as [|[k' v'] a IH]; simpl; auto. destruct (str_eqb k k'); auto. Qed.
 
+Lemma assoc_strip_other k k' (a : nattrs) : k <> k' -> assoc k (strip_key k' a) = assoc k a.
+Proof.
+  intro H. unfold strip_key. induction a as [|[k0 v0] a IH]; [reflexivity|]. cbn [filter fst].
+  destruct (str_eqb k0 k') eqn:E; cbn [negb].
+  - apply str_eqb_eq in E. subst k0. cbn [assoc]. apply str_eqb_neq in H. rewrite H. exact IH.
+  - cbn [assoc]. rewrite IH. reflexivity.
+Qed.
+
+Lemma assoc_strip_same k (a : nattrs) : assoc k (strip_key k a) = None.
+Proof.
+  unfold strip_key. induction a as [|[k0 v0] a IH]; [reflexivity|]. cbn [filter fst].
+  destruct (str_eqb k0 k) eqn:E; cbn [negb]; [exact IH|].
+  cbn [assoc]. replace (str_eqb k k0) with false; [exact IH|].
+  symmetry. apply str_eqb_neq. intro X. subst k0. rewrite str_eqb_refl in E. discriminate.
+Qed.
+
+Lemma assoc_strip_reg k a : k <> a_names -> k <> a_dupnames -> k <> a_ids -> assoc k (strip_reg a) = assoc k a.
+Proof. intros H1 H2 H3. unfold strip_reg. rewrite !assoc_strip_other; auto. Qed.
+
+Lemma assoc_ids_strip_reg a : assoc a_ids (strip_reg a) = None.
+Proof. unfold strip_reg. apply assoc_strip_same. Qed.
+
 Lemma deco_assoc objs o a k :
   k <> a_names -> k <> a_dupnames -> k <> a_ids -> assoc k (deco_attrs objs o a) = assoc k a.
 Proof.
-  intros H1 H2 H3. unfold deco_attrs. destruct (nassoc o objs) as [r|]; [|reflexivity].
-  rewrite !assoc_app. destruct (assoc k a); [reflexivity|].
+  intros H1 H2 H3. unfold deco_attrs. destruct (nassoc o objs) as [r|]; [|apply assoc_strip_reg; auto].
+  rewrite !assoc_app, assoc_strip_reg by auto. destruct (assoc k a); [reflexivity|].
   assert (E1 : str_eqb k a_names = false) by (apply str_eqb_neq; exact H1).
   assert (E2 : str_eqb k a_dupnames = false) by (apply str_eqb_neq; exact H2).
   assert (E3 : str_eqb k a_ids = false) by (apply str_eqb_neq; exact H3).
